@@ -180,6 +180,15 @@ def scenarios(tier, rng):
                                            {"op": "list", "dir": "@A"}]},
                                   {"ops": [{"op": "list", "dir": "@A"}, restore_op(full), {"op": "solve", "k": BIG},
                                            {"op": "wait"}]}]))
+    # the only completed checkpoint carries the label 0 (the user saved the freshly built solver)
+    for kind, pname in (("VI", "forest"), ("RVI", "forest")):
+        pspec, full = P[pname]
+        out.append(base_scenario(f"{kind}-{pname}-only-step-0", kind, pname, pspec, full, 5, 2, False,
+                                 [{"ops": [{"op": "new"}, {"op": "save_as", "label": 0}, {"op": "wait"}, {"op": "list", "dir": "@A"}]},
+                                  {"ops": [{"op": "list", "dir": "@A"}, restore_op(full), {"op": "solve", "k": 3}, {"op": "wait"},
+                                           {"op": "list", "dir": "@A"}]},
+                                  {"ops": [{"op": "list", "dir": "@A"}, {"op": "load", "dir": "@A", "step": 0}, {"op": "solve", "k": 2},
+                                           {"op": "wait"}]}]))
     # error paths
     pspec, full = P["tabular"]
     out.append(base_scenario("VI-tabular-restore-without-config", "VI", "tabular", pspec, False, 1, 2, False,
